@@ -14,6 +14,7 @@ EXPLANATION = ("For each public function of acnsim/analysis: the declared return
                "the order ChargingNetwork.constraint_current uses); NEMA = (max - mean)/mean over axis 0 of the stacked "
                "currents of exactly the requested phases; datetimes_array has one entry per simulated period spaced by the period."
                ' Added in round 3: casts to timedelta64 / datetime64 / int of a dimensioned quantity truncate (units engine); results are judged on their def-use expanded comprehension (append loops, accumulation loops).')
+EXPLANATION += ' Added in rounds 4-5: the network-side definition of constraint_current (C06 rules) runs here; name/row pairing by enumerate.'
 NOT_DECIDED = "numeric equality with an independent recomputation"
 
 MOD = "acnsim/analysis/__init__.py"
